@@ -1208,3 +1208,106 @@ def o_c16(spec, obs):
         if cmd[79:81] != b"\\x37\\x01" or int.from_bytes(cmd[81:83], "little") != 4 + len(text) or cmd[83:87] != bytes(4):
             return True, "IR frame payload header %s does not describe a %d byte text" % (cmd[79:87].hex(), len(text))
     return False, "ok"
+
+
+# ------------------------------------------------------------------------------- C15
+C15_MODE = {"AUTO": "aa", "DRY": "ad", "FAN": "aw", "COOL": "ar", "HEAT": "ah"}
+C15_FAN = {"AUTO": "f0", "LOW": "f1", "MEDIUM": "f2", "HIGH": "f3"}
+
+
+@kind("c15")
+def k_c15(spec):
+    import aioswitcher.device as dev
+    from aioswitcher.api.remotes import SwitcherBreezeRemote
+
+    case = spec["case"]
+    out = {}
+    try:
+        R = SwitcherBreezeRemote(spec["ir_set"])
+        out["caps"] = {"modes": sorted(m.name for m in R.supported_modes), "min": R.min_temperature, "max": R.max_temperature,
+                       "toggle": R.on_off_type, "separated": R.separated_swing_command, "id": R.remote_id}
+        if case.get("kind") == "build":
+            cmd = R.build_command(getattr(dev.DeviceState, case["state"]), getattr(dev.ThermostatMode, case["mode"]), spec["target"],
+                                  getattr(dev.ThermostatFanLevel, case["fan"]), getattr(dev.ThermostatSwing, case["swing"]),
+                                  None if case["prev"] is None else getattr(dev.DeviceState, case["prev"]))
+            out["command"], out["length"] = cmd.command, cmd.length
+        elif case.get("kind") == "swing":
+            cmd = R.build_swing_command(getattr(dev.ThermostatSwing, case["swing"]))
+            out["command"], out["length"] = cmd.command, cmd.length
+    except Exception as e:  # noqa: BLE001
+        out.update(exc_name(e))
+    return out
+
+
+def _c15_expected_key(case, ir_set, target):
+    waves = {w["Key"]: w for w in ir_set["IRWaveList"]}
+    temps = [int(k[2:4]) for k in waves if k[2:4].isdigit()]
+    tmin, tmax = (min(temps), max(temps)) if temps else (100, -100)
+    T = tmax if target > tmax else (tmin if target < tmin else target)
+    toggle = ir_set["OnOffType"] == 1
+    if not toggle and case["state"] == "OFF":
+        cands = ["off"]
+    else:
+        pre = "on_" if (toggle and case["prev"] is not None and case["prev"] != case["state"]) else ""
+        b = C15_MODE[case["mode"]] + (str(T) if case["mode"] in ("COOL", "HEAT") else "")
+        full = pre + b + "_" + C15_FAN[case["fan"]] + ("_d1" if case["swing"] == "ON" else "")
+        cands = [full, pre + b + "_" + C15_FAN[case["fan"]], pre + b]
+    for k in cands:
+        if k in waves:
+            return k, waves[k]
+    return None, None
+
+
+@oracle("C15")
+def o_c15(spec, obs):
+    case = spec["case"]
+    if case["kind"] == "swing":
+        key = "FUN_d0" if case["swing"] == "OFF" else "FUN_d1"
+        w = {x["Key"]: x for x in spec["ir_set"]["IRWaveList"]}.get(key)
+        if w is None:
+            return (obs.get("exception") != "RuntimeError"), "missing swing key: %r" % obs.get("exception")
+    else:
+        sup = sorted({m for m, c in C15_MODE.items() if any(x["Key"][0:2] == c for x in spec["ir_set"]["IRWaveList"])})
+        if case["mode"] not in sup:
+            if obs.get("exception") != "RuntimeError":
+                return True, "unsupported mode %s not refused: %r" % (case["mode"], obs.get("exception", obs.get("command")))
+            names = sorted(x.strip() for x in obs.get("msg", "").split("are:")[-1].split(",") if x.strip())
+            if names != sorted(m.lower() for m in sup):
+                return True, "error names %r, supported are %r" % (names, sup)
+            return False, "ok"
+        key, w = _c15_expected_key(case, spec["ir_set"], spec["target"])
+        if key is None:
+            return False, "no candidate key present: the statement is silent"
+    text = (w["Para"] + "|" + w["HexCode"]).encode()
+    exp_cmd = "00000000" + text.hex()
+    exp_len = (4 + len(text)).to_bytes(2, "little").hex()
+    if obs.get("command") != exp_cmd:
+        return True, "command is not the code stored under %r (got %r...)" % (key, str(obs.get("command", obs.get("exception")))[:60])
+    if obs.get("length") != exp_len:
+        return True, "length field %r for a %d byte payload, expected %r" % (obs.get("length"), 4 + len(text), exp_len)
+    return False, "ok"
+
+
+@oracle("C15cap")
+def o_c15cap(spec, obs):
+    keys = [w["Key"] for w in spec["ir_set"]["IRWaveList"]]
+    inv = {v: k for k, v in C15_MODE.items()}
+    modes = sorted({inv[k[0:2]] for k in keys if k[0:2] in inv})
+    temps = [int(k[2:4]) for k in keys if k[2:4].isdigit()]
+    caps = obs.get("caps")
+    if caps is None:
+        return True, "construction raised %s" % obs.get("exception")
+    if caps["modes"] != modes:
+        return True, "supported modes %r, set holds %r" % (caps["modes"], modes)
+    if temps and (caps["min"], caps["max"]) != (min(temps), max(temps)):
+        return True, "range %r, set holds %r" % ((caps["min"], caps["max"]), (min(temps), max(temps)))
+    if caps["toggle"] is not (spec["ir_set"]["OnOffType"] == 1):
+        return True, "toggle flag"
+    if caps["separated"] is not (spec["ir_set"]["IRSetID"] in ("ELEC7022", "ZM079055", "ZM079065", "ZM079049")):
+        return True, "separate swing flag"
+    return False, "ok"
+
+
+@oracle("C15mgr")
+def o_c15mgr(spec, obs):
+    return True, "get_remote cache/load (reported by the in-process check)"
